@@ -227,6 +227,7 @@ def build(case):
             occurs = probed in src.replace("pass", "")
             ns = load_source(src, modname="pv_c10")
             f = ns["f"]
+            code0 = f.__code__
             info_prov = None
             try:
                 pr = probing(f"f > {probed}", env={"f": f})
@@ -240,6 +241,8 @@ def build(case):
                 res = "SelectorError"
             except Exception as e:  # noqa
                 res = type(e).__name__
+            # a refused activation is refused before anything happens: the function keeps its own code
+            leaked = res != "activated" and f.__code__ is not code0
             # a refused activation must leave the function probe-able: follow up with a name Python knows
             followup = None
             if res == "SelectorError":
@@ -262,6 +265,8 @@ def build(case):
         if twin:
             require(not (want == "body" and res == "activated"), "vacuity twin", {"fp": "twin"})
             return
+        require(not leaked, f"`f > {probed}` was refused ({res}) but f was left running instrumented code",
+                {"fp": "C10:refusal-leaves-tooling"})
         require(followup is None or followup[1] == "activated",
                 f"after `f > {probed}` was refused, the valid `f > {followup and followup[0]}` is refused too on the same function: "
                 f"{followup and followup[1]}", {"fp": f"C10:refusal-sticky:{followup and followup[1]}"})
